@@ -124,7 +124,8 @@ class Ctx:
 
     # ------------------------------------------------------------------ jobs
     def job(self, name):
-        seeded = any(str(v).startswith("art:tr_") for v in JOBS[name].get("env", {}).values())
+        seeded = any(str(v).startswith("art:tr_") for v in JOBS[name].get("env", {}).values()) \
+            or JOBS[name].get("kind") in ("world", "link")        # -simulate behaviours depend on the seed
         if not JOBS[name].get("env") or JOBS[name].get("spec_only"):
             # a job that reads nothing extracted from the code depends on the specification only
             d = os.path.join(WORK, "cache", "spec-" + spec_hash())
